@@ -29,7 +29,7 @@ CONSTANTS MaxDepth,     \* longest package directory, in elements below GOPATH/s
           MainKinds,    \* subset of {"string", "file"}
           MaxMainDepth, \* deepest directory for a main file
           AllowRel,     \* generate relative imports
-          Family,       \* "all" | "multi" | "triple" | "nested": which trees the exhaustive Init takes
+          Family,       \* "all" | "multi" | "triple" | "nested" | "chain": which trees the exhaustive Init takes
           Excl          \* apply the named exclusions of the known findings
 
 Names == {"a", "b"}
@@ -187,6 +187,12 @@ Excluded_F_C16_1(w, imp) == imp.k = "abs" /\ Len(imp.p) = 2 /\ imp.p[1] = imp.p[
 Excluded_F_C16_2(w, imp) ==
     LET t == Target(tree, DirOf(w), imp) IN
     \E q \in PlannedOK : (q.imp = imp /\ q.to # t) \/ (q.imp # imp /\ q.to = t /\ t # NotFound)
+\* F-C16-2 is REPAIRED for absolute imports (08b9d7c: packages are memoised by directory); what is still keyed by
+\* the import string is the relative import: only those statements stay out of the generators
+Still_F_C16_2(w, imp) ==
+    LET t == Target(tree, DirOf(w), imp) IN
+    \E q \in PlannedOK : /\ (imp.k # "abs" \/ q.imp.k # "abs")
+                          /\ ((q.imp = imp /\ q.to # t) \/ (q.imp # imp /\ q.to = t /\ t # NotFound))
 \* F-C16-3: the program is a main FILE and its own location matters for the answer:
 \* the file's import would be answered differently from GOPATH/src itself, or an import
 \* that no package of the program can see is visible from the main file's directory
@@ -225,13 +231,19 @@ Excluded_F_C16_5(w, imp) ==
     IN t # NotFound /\
        \E i \in 1..Len(c) : /\ c[i] \notin tree /\ DirExists(tree, c[i])
                             /\ \A j \in 1..Len(c) : c[j] = t => i < j
+\* F-C16-3 is REPAIRED for the imports of the main file itself (5f774f5); what is left is the retry from the main
+\* file's location for an import that a PACKAGE of the program cannot see
+Still_F_C16_3(w, imp) ==
+    /\ sit = "file" /\ imp.k = "abs"
+    /\ w # MainId /\ Resolve(tree, w, imp.p) = NotFound /\ Resolve(tree, mdir, imp.p) # NotFound
 TrigSet(w, imp) ==
     (IF Excluded_F_C16_1(w, imp) THEN {1} ELSE {}) \cup (IF Excluded_F_C16_2(w, imp) THEN {2} ELSE {}) \cup
     (IF Excluded_F_C16_3(w, imp) THEN {3} ELSE {}) \cup (IF Excluded_F_C16_4(w, imp) THEN {4} ELSE {}) \cup
     (IF Excluded_F_C16_5(w, imp) THEN {5} ELSE {})
 \* F-C16-1 and F-C16-4 are REPAIRED in /repo (9f9a196, 169b78e): their constructs are generated again
 \* (the predicates still compute the trigger of a failing case)
-Excluded(w, imp) == TrigSet(w, imp) \ {1, 4} # {}
+\* F-C16-2 and F-C16-3 are repaired in part: the exclusion is what is left of them
+Excluded(w, imp) == TrigSet(w, imp) \ {1, 2, 3, 4} # {} \/ Still_F_C16_2(w, imp) \/ Still_F_C16_3(w, imp)
 
 SynthOptions(w, excl) ==
     LET S  == {imp \in ImpOptions(w) : ~Mixed(w, imp) /\ (excl => ~Excluded(w, imp))}
@@ -302,7 +314,13 @@ Triple(T) == \E d, e, f \in T : d # e /\ e # f /\ d # f /\ PathOf(d) = PathOf(e)
 Nested(T) == \E I, d, e \in T :
                 /\ Len(I) >= 2 /\ d # I /\ IsPrefix(I, d) /\ e # d
                 /\ PathOf(e) = <<I[Len(I)]>> \o SubSeq(d, Len(I) + 1, Len(d))
+\* trees in which one copy d of an import path leads to ANOTHER copy e of the same path through a third package q
+\* (d imports q, q imports the path and gets e): two packages under one import path on one import chain, no cycle
+Chain(T) == \E d, e, q \in T :
+                /\ d # e /\ PathOf(d) = PathOf(e) /\ q \notin {d, e}
+                /\ Resolve(T, d, PathOf(q)) = q /\ Resolve(T, q, PathOf(e)) = e
 FamilyTrees == CASE Family = "multi"  -> {T \in Trees : Multi(T)}
+                 [] Family = "chain"  -> {T \in Trees : Chain(T)}
                  [] Family = "triple" -> {T \in Trees : Triple(T)}
                  [] Family = "nested" -> {T \in Trees : Nested(T)}
                  [] OTHER -> Trees
